@@ -190,8 +190,8 @@ impl Property for C07 {
     }
     fn cases(&self, tier: Tier) -> u64 {
         match tier {
-            Tier::Quick => 10_000,
-            Tier::Thorough => 300_000,
+            Tier::Quick => 60_000,
+            Tier::Thorough => 600_000,
         }
     }
     fn required_labels(&self, _tier: Tier) -> Vec<&'static str> {
